@@ -5,7 +5,7 @@
 -/
 import Psa.Proofs.JsonShape
 import Psa.Proofs.Base64
-import Psa.Tie.Facts
+import Psa.Tie.Facts.Fields
 import Psa.Props.C01
 import Psa.Proofs.JsonRoundTrip
 namespace Psa.Props.C12
